@@ -274,29 +274,43 @@ func runR064(c *Ctx) {
 			if g, ok := u.X.(*ssa.Global); !ok || g.Name() != "ErrLocationRecordInvalid" {
 				continue
 			}
-			onMiss := false
-			edgeFacts(r.Block(), func(cond ssa.Value, val bool) bool {
-				c0, v := cond, val
-				if n, ok := c0.(*ssa.UnOp); ok && n.Op == token.NOT {
-					c0, v = n.X, !v
-				}
-				if ex, ok := c0.(*ssa.Extract); ok && ex.Tuple == ssa.Value(res) && !v {
-					onMiss = true
-					return false
-				}
-				if bo, ok := c0.(*ssa.BinOp); ok && (bo.Op == token.NEQ && v || bo.Op == token.EQL && !v) {
-					// checksum mismatch: one side is computeChecksumForRecord(..., seed of res)
-					for _, side := range []ssa.Value{bo.X, bo.Y} {
-						if cl, ok := side.(*ssa.Call); ok && cl.Call.StaticCallee() != nil && cl.Call.StaticCallee().Name() == "computeChecksumForRecord" {
-							if ex, ok := cl.Call.Args[1].(*ssa.Extract); ok && ex.Tuple == ssa.Value(res) {
-								onMiss = true
-								return false
+			// every way into the return has its reason (two reasons may share one return: `!found || mismatch`)
+			reasonOn := func(enum func(f func(cond ssa.Value, val bool) bool)) bool {
+				onMiss := false
+				enum(func(cond ssa.Value, val bool) bool {
+					c0, v := cond, val
+					if n, ok := c0.(*ssa.UnOp); ok && n.Op == token.NOT {
+						c0, v = n.X, !v
+					}
+					if ex, ok := c0.(*ssa.Extract); ok && ex.Tuple == ssa.Value(res) && !v {
+						onMiss = true
+						return false
+					}
+					if bo, ok := c0.(*ssa.BinOp); ok && (bo.Op == token.NEQ && v || bo.Op == token.EQL && !v) {
+						// checksum mismatch: one side is computeChecksumForRecord(..., seed of res)
+						for _, side := range []ssa.Value{bo.X, bo.Y} {
+							if cl, ok := side.(*ssa.Call); ok && cl.Call.StaticCallee() != nil && cl.Call.StaticCallee().Name() == "computeChecksumForRecord" {
+								if ex, ok := cl.Call.Args[1].(*ssa.Extract); ok && ex.Tuple == ssa.Value(res) {
+									onMiss = true
+									return false
+								}
 							}
 						}
 					}
+					return true
+				})
+				return onMiss
+			}
+			onMiss := reasonOn(func(f func(cond ssa.Value, val bool) bool) { edgeFacts(r.Block(), f) })
+			if !onMiss && len(r.Block().Preds) > 1 {
+				onMiss = true
+				for _, p := range r.Block().Preds {
+					p := p
+					if !reasonOn(func(f func(cond ssa.Value, val bool) bool) { edgeFactsOn(p, r.Block(), f) }) {
+						onMiss = false
+					}
 				}
-				return true
-			})
+			}
 			c.Check(onMiss, FuncName(get), "invalid-verdict", c.Pos(r.Pos()), "a record is invalid only when its block is gone or its epoch-bound checksum fails", "ErrLocationRecordInvalid is returned for a reason other than the resolver's miss or a checksum mismatch under the resolver's hash seed")
 		}
 		okPut := false
